@@ -2,6 +2,7 @@ import PcVerif.Ops.Caption
 import PcVerif.Model.DfxpTime
 import PcVerif.Model.SamiTime
 import PcVerif.Model.SamiWriter
+import PcVerif.Model.Langs
 namespace PcVerif.Ops
 open Proto
 
@@ -30,6 +31,15 @@ def encSync (s : SamiW.Sync) : String :=
 def samiWriterOps : List (String × Handler) := [
   ("sami.plan", fun a => match a with
     | [ls] => encList encSync (SamiW.plan (if ls = "[]" then [] else (ls.splitOn "|").map decTimes))
+    | _ => "bad-args")
+]
+end PcVerif.Ops
+
+namespace PcVerif.Ops
+open Proto
+def langOps : List (String × Handler) := [
+  ("dfxp.langs", fun a => match a with
+    | [tt, d, divs] => encStrs (Langs.readLanguages (decOptStr tt) (decStr d) (decList decOptStr divs))
     | _ => "bad-args")
 ]
 end PcVerif.Ops
